@@ -70,7 +70,14 @@ impl Property for C06 {
         tier.pick(300, 6000)
     }
     fn decode(&self, t: &mut Tape, _tier: Tier) -> Case {
-        let program = gen_program(t, &GenCfg::env());
+        let mut program = gen_program(t, &GenCfg::env());
+        // shape knob: the whole hierarchy coinductive (FromEnv must stay inductive even then: a supertrait cycle
+        // is not a proof)
+        if t.chance(20) {
+            for tr in program.traits.iter_mut() {
+                tr.kind = TraitKind::Coinductive;
+            }
+        }
         let mut goals = vec![];
         for _ in 0..NPAIRS {
             let (a, b) = gen_pair(t, &program);
